@@ -70,6 +70,7 @@ def walk(t, v, pre, post, tv=None):
         pre.append(v)
         tv2 = dict(tv or {})
         tv2.update(ti.extra or {})
+        tv2.update(tinfo.info(type(v)).extra or {})
         for n, ft, f in tinfo.dc_fields(type(v)):
             walk(ft, getattr(v, n), pre, post, tv2)
         post.append(v)
@@ -112,8 +113,11 @@ def expected_ser_trace(T, v):
             cls = type(x)
             if has_hook(cls, "__pre_serialize__"):
                 out.append(("pre_ser", cls.__name__, id(x)))
+            tv2 = dict(tv or {})
+            tv2.update(ti.extra or {})
+            tv2.update(tinfo.info(cls).extra or {})
             for n, ft, f in tinfo.dc_fields(cls):
-                rec(ft, getattr(x, n), tv)
+                rec(ft, getattr(x, n), tv2)
             if has_hook(cls, "__post_serialize__"):
                 out.append(("post_ser", cls.__name__, id(x)))
 
